@@ -288,6 +288,7 @@ void World::on_syscall(const char *name) {
 }
 
 int World::on_accept(KFd &k, void *addr_v, unsigned *addrlen) {
+	cur_read_client = -1;
 	feed_batch_errors_before(k.fd);
 	flush_pending();
 	if (k.backlog.empty()) { errno = EAGAIN; trace.tag("accept-eagain"); return -1; }
@@ -324,6 +325,7 @@ long World::on_read(KFd &k, void *buf, size_t n) {
 	flush_pending();
 	shadow_mark();
 	if (k.kind == FD_TIMER) {
+		cur_read_client = -1;
 		if (k.expirations == 0) { errno = EAGAIN; return -1; }
 		if (n < 8) { errno = EINVAL; return -1; }
 		uint64_t v = k.expirations; k.expirations = 0; memcpy(buf, &v, 8);
@@ -334,6 +336,7 @@ long World::on_read(KFd &k, void *buf, size_t n) {
 	Client *clp = client_of(k);
 	if (!clp) { errno = EBADF; return -1; }
 	Client &cl = *clp;
+	cur_read_client = cl.idx;
 	size_t avail = cl.rx.size() - cl.rx_off;
 	if (avail == 0) {
 		if (cl.rx_err) { int e = cl.rx_err; cl.err_reported = true; cl.rx_err = 0; cl.eof = true; errno = e; trace.tag("read-err"); trace.u64(e);
@@ -380,6 +383,24 @@ long World::on_read(KFd &k, void *buf, size_t n) {
 	return (long)m;
 }
 
+// A write to a peer fails for good while the daemon is answering one of its requests. The daemon gives the peer up then, in the middle of whatever message
+// (batch) it is processing: the members up to the one whose answer failed were carried out, the rest of that peer's input never is.
+void World::write_failed_for(Client &cl, const std::string &frame) {
+	if (mode != "exact" || !cl.faulty || cl.no_expect) return;
+	if (cur_read_client != cl.idx) return;    // the daemon is not working on this peer's input: a relayed answer or a notification that cannot be delivered does not end the peer
+	size_t off = 0;
+	if (cl.od.ws) { if (frame.size() < 2) return; size_t l = (unsigned char)frame[1] & 0x7f; off = l == 126 ? 4 : l == 127 ? 10 : 2; } else off = 4;
+	JV j; if (frame.size() <= off || !json_parse(frame.substr(off), j) || j.t != JV::Obj) return;
+	const JV *id = j.get("id");
+	if (!id || (id->t != JV::Str && id->t != JV::Num) || j.has("method")) return;      // only answers to the peer's own requests tell how far it got
+	bool found = false;
+	for (auto &in : pend) { if (in.c != cl.idx) break; JV q; if (in.t == Input::MSG && json_parse(in.text, q) && q.t == JV::Obj && q.get("id") && id_equal(*q.get("id"), *id)) { found = true; break; } }
+	if (found) while (!pend.empty() && pend.front().c == cl.idx) { Input in = pend.front(); JV q; bool last = in.t == Input::MSG && json_parse(in.text, q) && q.t == JV::Obj && q.get("id") && id_equal(*q.get("id"), *id); feed_one_pending(); if (last) break; }
+	// what is left of this peer's input is never looked at
+	{ std::deque<Input> keep; for (auto &in : pend) if (in.c != cl.idx) keep.push_back(in); else probe("input_of_dropped_peer_never_processed"); pend.swap(keep); }
+	cl.answer_write_failed = true; probe("answer_to_faulty_peer_failed");
+}
+
 long World::on_writev(KFd &k, const struct iovec *iov, int cnt) {
 	Client *clp = client_of(k);
 	if (!clp) { errno = EBADF; return -1; }
@@ -387,9 +408,9 @@ long World::on_writev(KFd &k, const struct iovec *iov, int cnt) {
 	size_t total = 0; for (int i = 0; i < cnt; i++) total += iov[i].iov_len;
 	cl.write_attempts_turn++;
 	c10_offer(cl, iov, cnt);
-	if (cl.wr_err) { c10_result(cl, -1, cl.wr_err); errno = cl.wr_err; probe("fault:write_error"); trace.tag("w-err"); return -1; }
+	if (cl.wr_err) { write_failed_for(cl, cl.c10.cur_F); c10_result(cl, -1, cl.wr_err); errno = cl.wr_err; probe("fault:write_error"); trace.tag("w-err"); return -1; }
 	if (cl.client_closed && cl.wr_fail_after_close && cl.wr_ok_left > 0) cl.wr_ok_left--;
-	else if (cl.client_closed && cl.wr_fail_after_close) { c10_result(cl, -1, EPIPE); errno = EPIPE; probe("fault:write_epipe"); trace.tag("w-epipe"); return -1; }
+	else if (cl.client_closed && cl.wr_fail_after_close) { write_failed_for(cl, cl.c10.cur_F); c10_result(cl, -1, EPIPE); errno = EPIPE; probe("fault:write_epipe"); trace.tag("w-epipe"); return -1; }
 	if (total == 0) return 0;
 	if (cl.space == 0) { c10_result(cl, -1, EAGAIN); cl.blocked = true; errno = EAGAIN; probe("fault:would_block"); trace.tag("w-eagain"); return -1; }
 	size_t m = total;
@@ -438,6 +459,7 @@ void World::on_close(KFd &k) {
 			if (sigterm_sent) { cl->expq.clear(); probe("closed_by_termination"); }
 			else if (mode == "exact" && !cl->no_expect && cl->faulty) {
 				// the daemon gives a faulty peer up when it cannot write to it: an observation, fed to the model as an input (DESIGN.md 5.2)
+				if (cl->answer_write_failed) { std::deque<Input> keep; for (auto &in : pend) if (in.c != cl->idx) keep.push_back(in); else probe("input_of_dropped_peer_never_processed"); pend.swap(keep); }
 				flush_pending();
 				// an add of this peer that nobody was told about did not take effect: settle that before its elements are taken away
 				if (!cl->closing) { probe("faulty_peer_dropped_by_daemon"); resolve_silent_decisions(); model.on_peer_gone(cl->idx, false); cl->closing = true; { Input gi; gi.t = Input::GONE; gi.c = cl->idx; gi.why = "faulty peer released"; shadow_log(gi); } }
